@@ -324,7 +324,7 @@ impl VarIntEncoder {
         let (count, count_bytes) = self.decode_leb128_u64(&data[offset..])?;
         offset += count_bytes;
         
-        let mut result = Vec::with_capacity(count as usize);
+        let mut result = Vec::with_capacity(count.min(data.len() as u64) as usize);
         
         // Read values
         for _ in 0..count {
@@ -343,7 +343,7 @@ impl VarIntEncoder {
         let (count, count_bytes) = self.decode_leb128_u64(&data[offset..])?;
         offset += count_bytes;
         
-        let mut result = Vec::with_capacity(count as usize);
+        let mut result = Vec::with_capacity(count.min(data.len() as u64) as usize);
         
         // Read values
         for _ in 0..count {
@@ -406,11 +406,19 @@ impl VarIntEncoder {
         
         // Write deltas
         for i in 1..values.len() {
-            let delta = if values[i] >= values[i-1] {
-                (values[i] - values[i-1]) << 1 // Positive delta, LSB = 0
+            let (magnitude, sign) = if values[i] >= values[i-1] {
+                (values[i] - values[i-1], 0) // Positive delta, LSB = 0
             } else {
-                ((values[i-1] - values[i]) << 1) | 1 // Negative delta, LSB = 1
+                (values[i-1] - values[i], 1) // Negative delta, LSB = 1
             };
+            // The sign bit leaves 63 bits for the magnitude; shifting a larger delta would
+            // silently drop its top bit
+            if magnitude >> 63 != 0 {
+                return Err(ZiporaError::invalid_data(
+                    "Delta between consecutive values exceeds 63 bits",
+                ));
+            }
+            let delta = (magnitude << 1) | sign;
             
             let delta_bytes = self.encode_leb128_u64(delta)?;
             result.extend_from_slice(&delta_bytes);
@@ -435,7 +443,7 @@ impl VarIntEncoder {
         
         // Write deltas using zigzag encoding
         for i in 1..values.len() {
-            let delta = values[i] - values[i-1];
+            let delta = values[i].wrapping_sub(values[i-1]);
             let delta_bytes = self.encode_zigzag_i64(delta)?;
             result.extend_from_slice(&delta_bytes);
         }
@@ -454,7 +462,7 @@ impl VarIntEncoder {
             return Ok(Vec::new());
         }
         
-        let mut result = Vec::with_capacity(count as usize);
+        let mut result = Vec::with_capacity(count.min(data.len() as u64) as usize);
         
         // Read first value
         let (first_value, first_bytes) = self.decode_leb128_u64(&data[offset..])?;
@@ -468,11 +476,12 @@ impl VarIntEncoder {
             let prev_value = result[result.len() - 1];
             let next_value = if (encoded_delta & 1) == 0 {
                 // Positive delta
-                prev_value + (encoded_delta >> 1)
+                prev_value.checked_add(encoded_delta >> 1)
             } else {
                 // Negative delta
-                prev_value - (encoded_delta >> 1)
-            };
+                prev_value.checked_sub(encoded_delta >> 1)
+            }
+            .ok_or_else(|| ZiporaError::invalid_data("Delta sequence value out of range"))?;
             
             result.push(next_value);
             offset += delta_bytes;
@@ -492,7 +501,7 @@ impl VarIntEncoder {
             return Ok(Vec::new());
         }
         
-        let mut result = Vec::with_capacity(count as usize);
+        let mut result = Vec::with_capacity(count.min(data.len() as u64) as usize);
         
         // Read first value
         let (first_value, first_bytes) = self.decode_leb128_i64(&data[offset..])?;
@@ -502,7 +511,7 @@ impl VarIntEncoder {
         // Read deltas
         for _ in 1..count {
             let (delta, delta_bytes) = self.decode_zigzag_i64(&data[offset..])?;
-            let next_value = result[result.len() - 1] + delta;
+            let next_value = result[result.len() - 1].wrapping_add(delta);
             result.push(next_value);
             offset += delta_bytes;
         }
@@ -542,7 +551,12 @@ impl VarIntEncoder {
                     ((64 - value.leading_zeros() + 7) / 8) as usize
                 };
                 
-                // Encode bytes needed in selector (2 bits per value)
+                // Encode bytes needed in selector (2 bits per value, i.e. 1..=4 bytes)
+                if bytes_needed > 4 {
+                    return Err(ZiporaError::invalid_data(
+                        "Group varint supports values below 2^32 only",
+                    ));
+                }
                 selector |= ((bytes_needed - 1) as u8) << (i * 2);
                 
                 // Store the value in little-endian format
@@ -564,7 +578,7 @@ impl VarIntEncoder {
         let (count, count_bytes) = self.decode_leb128_u64(&data[offset..])?;
         offset += count_bytes;
         
-        let mut result = Vec::with_capacity(count as usize);
+        let mut result = Vec::with_capacity(count.min(data.len() as u64) as usize);
         let mut remaining = count;
         
         while remaining > 0 {
@@ -686,7 +700,7 @@ impl VarIntEncoder {
         let (count, count_bytes) = self.decode_leb128_u64(&data[offset..])?;
         offset += count_bytes;
         
-        let mut result = Vec::with_capacity(count as usize);
+        let mut result = Vec::with_capacity(count.min(data.len() as u64) as usize);
         
         // Read values
         for _ in 0..count {
@@ -705,7 +719,7 @@ impl VarIntEncoder {
         let (count, count_bytes) = self.decode_leb128_u64(&data[offset..])?;
         offset += count_bytes;
         
-        let mut result = Vec::with_capacity(count as usize);
+        let mut result = Vec::with_capacity(count.min(data.len() as u64) as usize);
         
         // Read values
         for _ in 0..count {
